@@ -133,6 +133,9 @@ class block_access_slice(TaskletMixin):
         })
         return self._hvalue
 
+    def __jug_dependencies__(self):
+        return self.base.__jug_dependencies__()
+
     def __jug_value__(self):
         from .task import value
         return [value(self[i]) for i in range(len(self))]
